@@ -154,6 +154,8 @@ type FnCtx struct {
 	houdiniObs     []*houdiniOb
 	pendingHavoc   []string
 	finalized      bool
+	lemmaUsesOnce  int
+	using          map[string]bool
 	modRefs        map[string][]string
 	usedLemmaCalls map[string]bool
 	nclosures      int
